@@ -1,12 +1,208 @@
 /-
 Driver commands of property C14 (core Lean only).  Command names start with "c14.".
+
+  c14.hist <kind> <cap> tok…     run one sequential history through the model; one result per token
+  c14.lin  <kind> <cap> tok… | t:inv:res:tok=result …
+                                 search a linearization of a complete concurrent history
+
+kind: L F R (LRU, FIFO, Random), SL SF SR (StatsRecorder around them).
+tokens:  b<id>,<base>,<used01>,<next>   heap cell := …            → .
+         p<id>[,<victim id>]            Put(block id)             → r | k- | k<evicted id> | P | !
+         g<base>                        Get                        → - | <id>
+         k<base>                        Peek                       → 0,-1 | 1,<next>
+         l / c                          Len / Cap                  → n
+         r<n>[,victims] d<n>[,victims] f<n>[,victims]  Resize / Drop / cache.Free → . | . | t/f  (! = choice not allowed)
+         s                              Stats (recorder kinds)     → gets,misses,puts,retains,evictions
 -/
 import Hts.Drv.Util
+import Hts.Model.Cache
+import Hts.Spec.CacheContract
 namespace Hts.Drv.C14
-open Hts.Drv
+open Hts.Drv Hts.Model.Cache
+
+inductive AnyCache
+  | l (kind : Kind) (c : LCache)
+  | r (c : RCache)
+deriving DecidableEq
+
+structure St where
+  cache : AnyCache
+  stats : Option Stats
+  heap : List (Nat × Blk)
+deriving DecidableEq
+
+def heapFn (hp : List (Nat × Blk)) : Heap := fun i =>
+  match hp.find? (fun p => p.1 == i) with
+  | some p => p.2
+  | none => ⟨-1, false, -1⟩
+
+def mkState (kind : String) (cap : Int) : Option St :=
+  match kind with
+  | "L" => some ⟨.l .lru (LCache.new cap), none, []⟩
+  | "F" => some ⟨.l .fifo (LCache.new cap), none, []⟩
+  | "R" => some ⟨.r (RCache.new cap), none, []⟩
+  | "SL" => some ⟨.l .lru (LCache.new cap), some {}, []⟩
+  | "SF" => some ⟨.l .fifo (LCache.new cap), some {}, []⟩
+  | "SR" => some ⟨.r (RCache.new cap), some {}, []⟩
+  | _ => none
+
+def showPut : PutRes → String
+  | .refused => "r"
+  | .kept none => "k-"
+  | .kept (some v) => s!"k{v}"
+  | .panic => "P"
+
+def parseNats (xs : List String) : Option (List Nat) := xs.mapM parseNat
+
+/-- all (state, result) pairs the model allows for one token.  `obs` is the observed result: used only
+to pick Random's victim on `p` when the token carries none; `enum` = enumerate Random's drop choices
+when the token carries no victims (linearizability search). -/
+def stepTok (s : St) (tok : String) (obs : Option String) (enum : Bool) : List (St × String) :=
+  let op := tok.take 1 |>.toString
+  let args := if tok.length ≤ 1 then [] else (tok.drop 1).toString.splitOn ","
+  let h := heapFn s.heap
+  match op, args with
+  | "b", [i, b, u, n] =>
+    match parseNat i, parseInt b, parseNat u, parseInt n with
+    | some i, some b, some u, some n => [({ s with heap := (i, ⟨b, u != 0, n⟩) :: s.heap }, ".")]
+    | _, _, _, _ => []
+  | "p", i :: rest =>
+    match parseNat i with
+    | none => []
+    | some i =>
+      let hint : Option Nat :=
+        match rest with
+        | [v] => parseNat v
+        | _ => match obs with
+          | some o => if o.startsWith "k" then parseNat (o.drop 1).toString else none
+          | none => none
+      let fin (c : AnyCache) (r : PutRes) : List (St × String) :=
+        [({ s with cache := c, stats := s.stats.map (·.onPut r) }, showPut r)]
+      match s.cache with
+      | .l kd c => let (c', r) := c.put h i; fin (.l kd c') r
+      | .r c =>
+        match c.put h i hint with
+        | some (c', r) => fin (.r c') r
+        | none => [(s, "!")]
+  | "g", [k] =>
+    match parseInt k with
+    | none => []
+    | some k =>
+      let fin (c : AnyCache) (r : Option Nat) : List (St × String) :=
+        [({ s with cache := c, stats := s.stats.map (·.onGet r) },
+          match r with | none => "-" | some i => toString i)]
+      match s.cache with
+      | .l kd c => let (c', r) := c.get kd h k; fin (.l kd c') r
+      | .r c => let (c', r) := c.get k; fin (.r c') r
+  | "k", [k] =>
+    match parseInt k with
+    | none => []
+    | some k =>
+      let (e, n) := match s.cache with
+        | .l _ c => c.peek h k
+        | .r c => c.peek h k
+      [(s, s!"{if e then 1 else 0},{n}")]
+  | "l", [] => [(s, toString (match s.cache with | .l _ c => c.len | .r c => c.len))]
+  | "c", [] => [(s, toString (match s.cache with | .l _ c => c.cap | .r c => c.cap))]
+  | "s", [] =>
+    match s.stats with
+    | some t => [(s, s!"{t.gets},{t.misses},{t.puts},{t.retains},{t.evictions}")]
+    | none => []
+  | "d", n :: vs =>
+    match parseInt n, parseNats vs with
+    | some n, some vs =>
+      match s.cache with
+      | .l kd c => [({ s with cache := .l kd (c.drop n) }, ".")]
+      | .r c =>
+        if enum && vs.isEmpty then
+          (RCache.dropChoices h c.items n).filterMap fun v =>
+            (c.drop h n v).map fun c' => ({ s with cache := .r c' }, ".")
+        else match c.drop h n vs with
+          | some c' => [({ s with cache := .r c' }, ".")]
+          | none => [(s, "!")]
+    | _, _ => []
+  | "r", n :: vs =>
+    match parseInt n, parseNats vs with
+    | some n, some vs =>
+      match s.cache with
+      | .l kd c => [({ s with cache := .l kd (c.resize n) }, ".")]
+      | .r c =>
+        if enum && vs.isEmpty then
+          (RCache.dropChoices h c.items (c.items.length - n)).filterMap fun v =>
+            (c.resize h n v).map fun c' => ({ s with cache := .r c' }, ".")
+        else match c.resize h n vs with
+          | some c' => [({ s with cache := .r c' }, ".")]
+          | none => [(s, "!")]
+    | _, _ => []
+  | "f", n :: vs =>
+    match parseInt n, parseNats vs with
+    | some n, some vs =>
+      match s.cache with
+      | .l kd c => let (c', ok) := c.free n; [({ s with cache := .l kd c' }, if ok then "t" else "f")]
+      | .r c =>
+        if enum && vs.isEmpty then
+          (RCache.dropChoices h c.items (n - (c.cap - c.len))).filterMap fun v =>
+            (c.free h n v).map fun (c', ok) => ({ s with cache := .r c' }, if ok then "t" else "f")
+        else match c.free h n vs with
+          | some (c', ok) => [({ s with cache := .r c' }, if ok then "t" else "f")]
+          | none => [(s, "!")]
+    | _, _ => []
+  | _, _ => []
+
+def runHist (s : St) (toks : List String) : String :=
+  let rec go (s : St) (toks : List String) (acc : List String) : List String :=
+    match toks with
+    | [] => acc.reverse
+    | t :: ts =>
+      match stepTok s t none false with
+      | (s', r) :: _ => go s' ts (r :: acc)
+      | [] => ("?" :: acc).reverse
+  " ".intercalate (go s toks [])
+
+structure COp where
+  inv : Nat
+  res : Nat
+  tok : String
+  obs : String
+deriving DecidableEq
+
+def parseCOp (t : String) : Option COp :=
+  match t.splitOn ":" with
+  | [_, i, r, rest] =>
+    match rest.splitOn "=" with
+    | [tok, obs] => do
+      let i ← parseNat i
+      let r ← parseNat r
+      some ⟨i, r, tok, obs⟩
+    | _ => none
+  | _ => none
+
+/-- Wing–Gong search: pick any pending operation invoked before every pending response, apply it to
+the sequential model, require the observed result, recurse. -/
+partial def linSearch (s : St) (pending : List COp) : Bool :=
+  match pending with
+  | [] => true
+  | p0 :: _ =>
+    let minRes := pending.foldl (fun m o => min m o.res) p0.res
+    pending.any fun o =>
+      o.inv < minRes &&
+        (stepTok s o.tok (some o.obs) true).any fun (s', r) =>
+          r == o.obs && linSearch s' (pending.erase o)
 
 def handle (cmd : String) (args : List String) : Option String :=
   match cmd, args with
+  | "c14.hist", kind :: cap :: toks => do
+    let cap ← parseInt cap
+    let s ← mkState kind cap
+    some (runHist s toks)
+  | "c14.lin", kind :: cap :: rest => do
+    let cap ← parseInt cap
+    let s ← mkState kind cap
+    let pre := rest.takeWhile (· ≠ "|")
+    let ops ← (rest.dropWhile (· ≠ "|")).drop 1 |>.mapM parseCOp
+    -- the prefix (heap cells, sequential set-up operations) is executed first
+    let s' := pre.foldl (fun s t => match stepTok s t none false with | (s', _) :: _ => s' | [] => s) s
+    some (if linSearch s' ops then "linearizable" else "NOT-linearizable")
   | _, _ => none
 
 end Hts.Drv.C14
